@@ -140,7 +140,13 @@ def run_impl(modname, cases, workdir, tz="UTC", shards=None, timeout=3000):
     os.makedirs(workdir, exist_ok=True)
     n = len(cases)
     if shards is None:
-        shards = 1 if n < 200 else min(12, (n + 199) // 200)
+        per = 200
+        try:
+            import importlib
+            per = int(getattr(importlib.import_module("harness.props." + modname), "CASES_PER_SHARD", 200))
+        except Exception:
+            pass
+        shards = max(1, min(12, (n + per - 1) // per))
     procs = []
     for s in range(shards):
         part = cases[s::shards]
@@ -300,6 +306,8 @@ def run(prop, tier, seed, replay=None):
     impl_out = impl_by_tz[tzs[0]]
     model_out = run_model(cases, workdir)
 
+    if hasattr(prop, "prepare_compare"):
+        prop.prepare_compare(cases, impl_out, model_out, workdir)
     mism = []
     ambiguous = 0
     oracle_fail = []
